@@ -94,11 +94,16 @@ package diff
 //@   requires da != nil
 //@   modifies *
 //@   ensures [C12,C13] resultOrError: (res2 && res4 == nil) ==> usableDiff(res3)
+//@   ensures [C13] stops: res2 == (exists i int :: {da.errors[i]} 0 <= i && i < len(da.errors) && dfStopper(da, da.errors[i]))
+//@   ensures [C13] fatalerr: (exists i int :: {da.errors[i]} 0 <= i && i < len(da.errors) && dfFatal(da.errors[i])) ==> (res4 != nil
+//@         || (exists j int :: {da.errors[j]} 0 <= j && j < len(da.errors) && dfFatal(da.errors[j]) && dyntype(da.errors[j], *parser.FileProcessingError) && unwrap(da.errors[j], *parser.FileProcessingError).err == nil))
 
 //@ func (*DiffAnalyzer).ConnDiffFromResourceInfos
 //@   nosafety
 //@   requires da != nil
 //@   modifies *
+//@   before call 3:
+//@     assert [C13] nostop: forall i int :: {da.errors[i]} (0 <= i && i < len(da.errors)) ==> !dfStopper(da, da.errors[i])
 //@   ensures [C12,C13] resultOrError: res1 == nil ==> usableDiff(res0)
 
 // the diff map key of a connection is the printed identity of both ends - kind included, so two workloads that differ only
@@ -106,3 +111,36 @@ package diff
 //@ func getKeyFromP2PConn
 //@   requires p2pOK(c) && p2pSrc(c) != nil && p2pDst(c) != nil
 //@   ensures [C04] key: res == (clStr(p2pSrc(c)) + ";") + clStr(p2pDst(c))
+
+// ---------------------------------------------------------------------------------------------
+// Stop-on-error in diff (C13): the analysis of a reference tells the caller to stop iff some recorded error is fatal, or
+// severe under stop-on-first-error - whatever its position among the recorded errors
+// ---------------------------------------------------------------------------------------------
+//@ import parser "github.com/np-guard/netpol-analyzer/pkg/manifests/parser"
+//@ pred dfErrOK(e DiffError) = (dyntype(e, *diffGeneratingError) && unwrap(e, *diffGeneratingError) != nil && unwrap(e, *diffGeneratingError).err != nil)
+//@     || (dyntype(e, *parser.FileProcessingError) && unwrap(e, *parser.FileProcessingError) != nil)
+//@ fun dfFatal(e DiffError) bool = if dyntype(e, *diffGeneratingError) then unwrap(e, *diffGeneratingError).fatal else unwrap(e, *parser.FileProcessingError).fatal
+//@ fun dfSevere(e DiffError) bool = if dyntype(e, *diffGeneratingError) then unwrap(e, *diffGeneratingError).severe else unwrap(e, *parser.FileProcessingError).severe
+//@ pred dfErrsOK(da *DiffAnalyzer) = forall i int :: {da.errors[i]} (0 <= i && i < len(da.errors)) ==> dfErrOK(da.errors[i])
+//@ fun dfStopper(da *DiffAnalyzer, e DiffError) bool = dfFatal(e) || (da.stopOnError && dfSevere(e))
+
+//@ func (*DiffAnalyzer).stopProcessing
+//@   requires da != nil && dfErrsOK(da)
+//@   ensures [C13] def: res == (exists i int :: {da.errors[i]} 0 <= i && i < len(da.errors) && dfStopper(da, da.errors[i]))
+//@   loop 1:
+//@     invariant none: forall i int :: {da.errors[i]} (0 <= i && i <= rangeindex) ==> !dfStopper(da, da.errors[i])
+
+//@ func (*DiffAnalyzer).hasFatalError
+//@   requires da != nil && dfErrsOK(da)
+//@   ensures [C13] none: (forall i int :: {da.errors[i]} (0 <= i && i < len(da.errors)) ==> !dfFatal(da.errors[i])) ==> res == nil
+//@   ensures [C13] some: (exists i int :: {da.errors[i]} 0 <= i && i < len(da.errors) && dfFatal(da.errors[i])) ==> (res != nil
+//@         || (exists j int :: {da.errors[j]} 0 <= j && j < len(da.errors) && dfFatal(da.errors[j]) && dyntype(da.errors[j], *parser.FileProcessingError) && unwrap(da.errors[j], *parser.FileProcessingError).err == nil))
+//@   loop 1:
+//@     invariant none: forall i int :: {da.errors[i]} (0 <= i && i <= rangeindex) ==> !dfFatal(da.errors[i])
+
+// the set of printed identities of the peers of one reference (what "absent from the other set" is tested against)
+//@ func getPeersNamesFromPeersList
+//@   requires forall i int :: {peers[i]} (0 <= i && i < len(peers)) ==> clPeerOK(peers[i])
+//@   ensures [C04] names: res != nil && (forall s string :: {s in res} (s in res && res[s]) == (exists i int :: {peers[i]} 0 <= i && i < len(peers) && !clIsIP(peers[i]) && clStr(peers[i]) == s))
+//@   loop 1:
+//@     invariant names: peersSet != nil && (forall s string :: {s in peersSet} (s in peersSet && peersSet[s]) == (exists i int :: {peers[i]} 0 <= i && i <= rangeindex && !clIsIP(peers[i]) && clStr(peers[i]) == s))
